@@ -128,6 +128,18 @@ Definition class_D48 (conf : list dir) (tbl : matchtable) (q : request) : bool :
   | None => false
   end.
 
+(* class of finding D51: an HTTPRoute and a GRPCRoute of one namespace and name that both have a rule of the same index with several
+   backends: the two backend groups get one name (group_<ns>__<name>_rule<i>) and one split_clients block serves both *)
+Definition known_D51 := 51.
+Definition class_D51 (cs : cluster) : bool :=
+  existsb (fun r1 => existsb (fun r2 =>
+    negb (match rt_kind r1, rt_kind r2 with KHTTP, KHTTP | KGRPC, KGRPC => true | _, _ => false end) &&
+    seqb (rt_ns r1) (rt_ns r2) && seqb (rt_name r1) (rt_name r2) &&
+    existsb (fun ir => match nth_error (rt_rules r2) (fst ir) with
+                       | Some ru2 => Nat.ltb 1 (List.length (r_backends (snd ir))) && Nat.ltb 1 (List.length (r_backends ru2))
+                       | None => false
+                       end) (index_from 0 (rt_rules r1))) (c_routes cs)) (c_routes cs).
+
 Definition check_request (cs : cluster) (conf : list dir) (tbl : matchtable) (q : request) : list nat :=
   let impl := eval_http conf tbl q in
   match decide cs q with
@@ -138,7 +150,8 @@ Definition check_request (cs : cluster) (conf : list dir) (tbl : matchtable) (q 
       else if mixed && outcome_agree q (flip_grpc o) impl then [code_known known_D33]
       else (* finding D34: the HTTPS listener that owns the name has only invalid Routes and lost its own server: the handshake is
               rejected, or a less specific listener of the port answers in its place *)
-           if class_D34 cs q then [code_known known_D34] else [code_violation]
+           if class_D34 cs q then [code_known known_D34]
+           else if class_D51 cs then [code_known known_D51] else [code_violation]
   | DNoMatch fallback =>
       match impl with
       | OStatus 404 => if fallback then [code_known known_D24] else []
